@@ -890,6 +890,12 @@ def r5_fixpoint(run, w):
   recalc = [n for (n, c, nm) in fn.calls() if nm == "self._bring_all_up_to_date"]
   removes = {n.id for (n, c, nm) in fn.calls() if endswith(nm, "docmodel.apply_auto_removes")}
   flush = {n.id for (n, c, nm) in fn.calls() if endswith(nm, "out_actions.flush_calc_changes")}
+  # only what lies on a path to the normal return closes the bundle: the failure handler may flush
+  # and recalculate too, but it ends in `raise` and nothing of that is sent anywhere
+  def completes(nid):
+    return cfg.exit.id in cfg.reach({nid})
+  recalc = [n for n in recalc if completes(n.id)]
+  flush = {f for f in flush if completes(f)}
   if not recalc or not removes or not flush:
     raise AnalysisError("apply_user_actions: recalculation / auto-removal / flush not found")
   for n in recalc:
